@@ -130,6 +130,11 @@ def check_filter(ssj, base, fspec, req, view, rec, case, apis=('tables', 'pair',
     L = T.make_table(base['ltable'])
     R = T.make_table(base['rtable'])
     objs = {'tok': tok, 'filter': flt, 'ltable': L, 'rtable': R}
+    if fspec['kind'] == 'OverlapFilter':
+        # C06 specifies that OverlapFilter keeps a pair only if both STRINGS are non-empty; under a
+        # padded q-gram tokenizer '' still has tokens, so for such pairs C04 and C06 contradict each
+        # other -- neither check decides on them (DESIGN.md §8)
+        req = set((i, j) for (i, j) in req if view.lvals[i] != '' and view.rvals[j] != '')
 
     def report(api, i, j):
         msg = ('%s%s dropped a qualifying pair (%r, %r): l=%r r=%r' % (
